@@ -40,12 +40,12 @@ package webhook
 //@   at call PodUseENI: ghost c18useeni = result
 //@   at call IsFixedNamePod: ghost c18fixedname = result
 //@   loop 2 invariant forall k int :: 0 <= k && k <= rangeindex ==> netOK(networks.PodNetworks[k])
-//@ # (not yet provable within the solver budget: uniqueness of interface names)   loop 2 invariant forall k int :: 0 <= k && k <= rangeindex ==> networks.PodNetworks[k].Interface in iF
-//@ # (not yet provable within the solver budget: uniqueness of interface names)   loop 2 invariant forall a int, b int :: 0 <= a && a < b && b <= rangeindex ==> networks.PodNetworks[a].Interface != networks.PodNetworks[b].Interface
-//@ # (not yet provable within the solver budget: uniqueness of interface names)   loop 2 invariant forall s string :: s in iF ==> exists k int :: 0 <= k && k <= rangeindex && networks.PodNetworks[k].Interface == s
+//@   loop 2 invariant forall k int :: 0 <= k && k <= rangeindex ==> networks.PodNetworks[k].Interface in iF
+//@   loop 2 invariant forall a int, b int :: 0 <= a && a < b && b <= rangeindex ==> networks.PodNetworks[a].Interface != networks.PodNetworks[b].Interface
+//@   loop 2 invariant forall s string :: s in iF ==> exists k int :: 0 <= k && k <= rangeindex && networks.PodNetworks[k].Interface == s
 //@   # filling in cluster defaults keeps names, allocation types and the security-group bound
 //@   loop 3 invariant forall k int :: 0 <= k && k < len(networks.PodNetworks) ==> netOK(networks.PodNetworks[k])
-//@ # (not yet provable within the solver budget: uniqueness of interface names)   loop 3 invariant forall a int, b int :: 0 <= a && a < b && b < len(networks.PodNetworks) ==> networks.PodNetworks[a].Interface != networks.PodNetworks[b].Interface
+//@   loop 3 invariant forall a int, b int :: 0 <= a && a < b && b < len(networks.PodNetworks) ==> networks.PodNetworks[a].Interface != networks.PodNetworks[b].Interface
 //@   loop 3 invariant len(networks.PodNetworks) >= 1
 
 //@ # pods on the host network, ignored pods, and (outside CRD IPAM) pods matching no definition are never patched
@@ -54,4 +54,21 @@ package webhook
 //@ # at most ten security groups, an allocation type, unique interface names
 //@ guard call webhook.Patched in podWebhook: len(networks.PodNetworks) >= 1
 //@ guard call webhook.Patched in podWebhook: forall k int :: 0 <= k && k < len(networks.PodNetworks) ==> netOK(networks.PodNetworks[k])
-//@ # (not yet provable within the solver budget: uniqueness of interface names) guard call webhook.Patched in podWebhook: forall a int, b int :: 0 <= a && a < b && b < len(networks.PodNetworks) ==> networks.PodNetworks[a].Interface != networks.PodNetworks[b].Interface
+//@ guard call webhook.Patched in podWebhook: forall a int, b int :: 0 <= a && a < b && b < len(networks.PodNetworks) ==> networks.PodNetworks[a].Interface != networks.PodNetworks[b].Interface
+
+//@ # ---- zone affinity: the zone list computed for a pod-networks-request is contained in the zones of every requested network ----
+//@ # (each step either starts from the first network's zones or shrinks the running set, and always ends inside the
+//@ # current network's zones)
+//@ ghost c18n int = 0
+//@ ghost c18prev map[string]sets.Empty
+//@ func getPodNetworkRequests
+//@   requires client != nil
+//@   at call client.Client.Get before: ghost c18n = c18n + 1
+//@   at call client.Client.Get before: ghost c18prev = unioned
+//@   loop 1 invariant c18n == rangeindex + 1 && unioned != nil
+//@ guard call podNetworkingToPodNetworks in getPodNetworkRequests: forall z string :: z in unioned ==> z in zones
+//@ guard call podNetworkingToPodNetworks in getPodNetworkRequests: c18n == 1 || (forall z string :: z in unioned ==> z in c18prev)
+
+//@ # ---- resource injection: the device request equals the number of networks of the patched pod ----
+//@ guard call strconv.Itoa in setResourceRequest: arg0 == len(podNetworks)
+//@ guard call setResourceRequest in podWebhook: arg1 == networks.PodNetworks
